@@ -15,7 +15,7 @@ ASSUMPTIONS = [
 
 
 def run():
-  return tvrun.run_tv('C18', {'orderby': (80, 640, None)}, FUNCTIONS, ASSUMPTIONS, 'DESIGN.md §3 C18')
+  return tvrun.run_tv('C18', {'orderby': (80, 6000, None)}, FUNCTIONS, ASSUMPTIONS, 'DESIGN.md §3 C18')
 
 
 def replay(path):
